@@ -134,14 +134,17 @@ def run_check(modname, tier, seed, workers=None):
     units = expand_splits(units)
     # reachability twins: the first unit of every harness function, with every assertion forced to fail
     twins = []
-    last_of = {}
+    by_fn = {}
     for u in units:
-        last_of[(u['hfile'], u['fname'])] = u      # the last planned unit of a function is its largest instance
-    for u in last_of.values():
-        t = dict(u)
-        t['twin'] = True
-        t['max_paths'] = 40
-        twins.append(t)
+        by_fn.setdefault((u['hfile'], u['fname']), []).append(u)
+    for us in by_fn.values():
+        # up to 6 evenly spaced instances of every harness function (at least one must reach an assertion)
+        picks = sorted(set([len(us) - 1] + [int(i * (len(us) - 1) / 5) for i in range(6)]))
+        for i in picks:
+            t = dict(us[i])
+            t['twin'] = True
+            t['max_paths'] = 40
+            twins.append(t)
     from symtex import parallel
     last = [time.time()]
 
@@ -184,6 +187,7 @@ def finish(mod, plan, tier, seed, results, t0, nunits, post=None):
     problems = []
     viols = {}
     twin_ok = 0
+    twin_fn = {}
     twin_units = 0
     summary_info = None
     nfresh_max = 0
@@ -195,10 +199,11 @@ def finish(mod, plan, tier, seed, results, t0, nunits, post=None):
         summary_info = r.get('summary_info') or summary_info
         if r.get('twin'):
             twin_units += 1
+            key = r['unit'][:2]
+            twin_fn.setdefault(key, 0)
             if r['violations']:
                 twin_ok += 1
-            else:
-                problems.append('vacuous harness: no assertion reachable in %r %s' % (r['unit'][:2], r['status']))
+                twin_fn[key] += 1
             continue
         tot['paths'] += r['paths']
         tot['validated'] += r['validated']
@@ -236,6 +241,9 @@ def finish(mod, plan, tier, seed, results, t0, nunits, post=None):
         stats['decisions'] += post.get('decisions', 0)
         funcs.update(post.get('funcs', []))
         post_ev = post.get('evidence', {})
+    for key, n in twin_fn.items():
+        if n == 0:
+            problems.append('vacuous harness: no assertion reachable in any sampled instance of %r' % (key,))
     if tot['paths'] == 0:
         problems.append('no path explored')
     if stats['assert_queries'] == 0:
